@@ -57,7 +57,8 @@ impl Syllable {
         self.segments[pos] = *seg;
 
         if let Some(m) = mods {
-            lc += self.apply_seg_mods(alphas, m, pos, err_pos)?;
+            // the segment just written is one segment long, whatever its neighbours are
+            lc += self.apply_seg_mods_to_run(alphas, m, pos, 1, err_pos)?;
         }
 
         Ok(lc)
@@ -90,7 +91,8 @@ impl Syllable {
         }
 
         if let Some(m) = mods {
-            lc += self.apply_seg_mods(alphas, m, pos, err_pos)?;
+            // likewise: an inserted segment does not borrow length from an equal neighbour
+            lc += self.apply_seg_mods_to_run(alphas, m, pos, 1, err_pos)?;
         }
 
         Ok(lc)
@@ -110,8 +112,14 @@ impl Syllable {
     pub(crate) fn apply_seg_mods(&mut self, alphas: &RefCell<HashMap<char, Alpha>>, mods: &Modifiers, start_pos: usize, err_pos: Position) -> Result<i8, RuleRuntimeError> {
         // check seg length, if long then we must apply mods to all occurences (we assume that we are at the start)
         // debug_assert!(self.in_bounds(start_pos));
+        let seg_len = self.get_seg_length_at(start_pos);
+        self.apply_seg_mods_to_run(alphas, mods, start_pos, seg_len, err_pos)
+    }
+
+    /// As `apply_seg_mods`, for a run whose length the caller knows
+    fn apply_seg_mods_to_run(&mut self, alphas: &RefCell<HashMap<char, Alpha>>, mods: &Modifiers, start_pos: usize, run_len: usize, err_pos: Position) -> Result<i8, RuleRuntimeError> {
         let mut pos = start_pos;
-        let mut seg_len = self.get_seg_length_at(pos);
+        let mut seg_len = run_len;
         while seg_len > 0 {
             #[cfg(feature = "verif")] crate::verif::tick(303);
             let seg = self.segments.get_mut(pos).expect("position is in bounds");
@@ -120,12 +128,17 @@ impl Syllable {
             pos +=1;
         }
         // Really, this should be first so that we don't have to needlessly apply mods if we apply -long
-        self.apply_supras(alphas, &mods.suprs, start_pos, err_pos)
+        self.apply_supras_to_run(alphas, &mods.suprs, start_pos, run_len, err_pos)
     }
 
     pub(crate) fn apply_supras(&mut self, alphas: &RefCell<HashMap<char, Alpha>>, mods: &SupraSegs, pos: usize, err_pos: Position) -> Result<i8, RuleRuntimeError> {
+        let seg_len = self.get_seg_length_at(pos);
+        self.apply_supras_to_run(alphas, mods, pos, seg_len, err_pos)
+    }
+
+    fn apply_supras_to_run(&mut self, alphas: &RefCell<HashMap<char, Alpha>>, mods: &SupraSegs, pos: usize, run_len: usize, err_pos: Position) -> Result<i8, RuleRuntimeError> {
         let seg = self.segments[pos];
-        let mut seg_len = self.get_seg_length_at(pos);
+        let mut seg_len = run_len;
         let mut len_change = 0;
         match mods.length {
             // [long, Overlong]
